@@ -90,7 +90,8 @@ func famQuery(sc *scn.Scenario, em func(vt.Ev)) {
 	out := run.Exec(context.Background(), eng, run.Store(sc), sc, false)
 	if flagOps {
 		optrace.Disable()
-		for _, e := range opSink.Drain() {
+		settle(baseGoroutines)
+		for _, e := range drainOps(opSink) {
 			em(e)
 		}
 	}
